@@ -54,31 +54,8 @@ def r4_member_indexing(run, tree):
     run.rule("C06.R4", "member indexing: Vector component-uniform, Array index passed to the buffer; units and names kept",
              "D7 fold + sibling agreement", "", floor=3)
     cf.check_vector_unary_and_maps(run, tree)
-    # Array.__getitem__
-    from .c17 import r6_views
-    ai = tree.method(tree.cls("core/array.py::Array"), "__getitem__")
-    run.analysed(ai)
-    pn = params(ai)
-    rets = [r for r in returns_of(ai.node) if r.value is not None]
-    ok = bool(rets)
-    for r in rets:
-        v = r.value
-        vals = next((k.value for k in v.keywords if k.arg == "values"), v.args[0] if isinstance(v, ast.Call) and v.args else None) \
-            if isinstance(v, ast.Call) else None
-        unit = next((k.value for k in v.keywords if k.arg == "unit"), None) if isinstance(v, ast.Call) else None
-        good = isinstance(vals, ast.Subscript) and norm(vals.value) == "%s._array" % pn[0] and is_name(vals.slice, pn[1]) and \
-            unit is not None and norm(unit) in ("%s.unit" % pn[0], "%s._unit" % pn[0])
-        ok = ok and good
-    run.ob("core/array.py::Array.__getitem__::index-passed-through", ok, ai.where(),
-           "returns %s" % "; ".join(norm(r.value)[:80] for r in rets), "a[idx] selects other rows than ndarray[idx] or loses the unit")
-    from .coretypes import check_array_index_gate
-    check_array_index_gate(run, tree)
-    # an Array used as index is replaced by its raw values (bool/int only)
-    conv = any(isinstance(n, ast.Assign) and is_name(n.targets[0], pn[1]) and norm(n.value) == "%s.values" % pn[1]
-               for n in ast.walk(ai.node))
-    run.ob("core/array.py::Array.__getitem__::array-index-unwrapped", conv, ai.where(),
-           "an osyris Array index is %s" % ("replaced by its values" if conv else "not unwrapped"),
-           "group[group['x'] > 0] (mask as Array)")
+    from . import array_folds as af
+    af.check_index_gate_fold(run, tree)
 
 
 RULES = [r1_gate, r2_single_writer, r3_one_index, r4_member_indexing]
